@@ -30,7 +30,7 @@ pub const SCLASS: [&str; 8] = ["uniform", "zero", "l-1", "l", "l+1", "2^255-1", 
 fn str_strategy() -> impl Strategy<Value = StrSpec> {
     (
         prop_oneof![12 => 1u8..=6, 2 => Just(0u8), 2 => Just(7u8), 1 => Just(8u8), 1 => Just(255u8), 1 => any::<u8>()],
-        prop_oneof![10 => 0u8..=6, 1 => Just(70u8)],
+        prop_oneof![10 => 0u8..=6, 2 => 7u8..=40, 1 => Just(70u8)],
         prop_oneof![6 => Just(0i8), 1 => Just(-2i8), 2 => Just(-1i8), 2 => Just(1i8), 1 => Just(2i8)],
         prop_oneof![6 => Just(0u8), 2 => 1u8..=33],
         prop::collection::vec(prop_oneof![8 => Just(0u8), 1 => Just(1u8), 1 => Just(2u8), 1 => Just(3u8), 1 => Just(4u8), 1 => Just(5u8), 1 => Just(6u8), 1 => Just(7u8)], 1..=8),
@@ -191,7 +191,7 @@ pub fn str_oracle<E: Engine>(_ctx: &RunCtx, spec: &StrSpec, log: &mut CaseLog) -
     log.label(format!("string:first={}", if (1..=6).contains(&spec.first) { "1..6" } else { "invalid" }));
     log.label(format!("string:offset={}", spec.offset));
     log.label(format!("string:trailing={}", if spec.trailing == 0 { "0" } else { ">0" }));
-    log.label(format!("string:pairs={}", if spec.pairs == 0 { "0" } else if spec.pairs == 70 { "70" } else { "1-6" }));
+    log.label(format!("string:pairs={}", if spec.pairs == 0 { "0" } else if spec.pairs > 6 { ">6" } else { "1-6" }));
     for c in spec.scalars.iter().take(3) {
         log.label(format!("string:scalar={}", SCLASS[*c as usize]));
     }
